@@ -2,6 +2,8 @@
   C06 — SCC captions appear and disappear at the frames their commands are sent (timing part of the reader).
 -/
 import PcVerif.Model.Scc.Finish
+import PcVerif.Lemmas.SccTimeLemmas
+import PcVerif.Lemmas.SccFrameLemmas
 namespace PcVerif.Props.C06
 open PcVerif PcVerif.Scc
 
@@ -63,5 +65,43 @@ theorem store_joins_iff (S : Stash) (c : Creator) (start stop : Rat) (hne : c.is
       (if l.stop = 0 ∨ new.start - l.stop < 5 * frameUs + 1 then setEnd S.stash S.lastBatch new.start else S.stash) ++ (new :: rest) := by
   unfold store
   simp only [hne, Bool.false_eq_true, if_false, hcaps, hlast, hl]
+
+/-! ### the instant of a code word -/
+
+/-- **C06 (instant, non-drop-frame time code).** `h:m:s:ff` (fields of any width, two frame digits) and `frames` code words
+    since the start of the line denote `(h·3600 + m·60 + s + (ff + frames)/30)` seconds, running 1001/1000 slower than the
+    clock, minus the configured offset, never below zero -/
+theorem instant_nondrop (h m s ff : Str) (frames : Nat) (off : Rat)
+    (hh : Str.Digits h) (hm : Str.Digits m) (hs : Str.Digits s) (hf : Str.Digits ff) (hl : ff.length = 2) :
+    timeOf (String.ofList (h ++ ':' :: (m ++ ':' :: (s ++ ':' :: ff)))) frames off
+      = some (clampZero ((((Str.natOfDigits h * 3600 + Str.natOfDigits m * 60 + Str.natOfDigits s : Nat) : Rat)
+          + mkRat (Str.natOfDigits ff + frames) 30) * mkRat 1001 1000 * 1000000 - off)) :=
+  timeOf_nondrop h m s ff frames off hh hm hs hf hl
+
+/-- **C06 (instant, drop-frame time code).** `h:m:s;ff`: the same count at clock speed -/
+theorem instant_drop (h m s ff : Str) (frames : Nat) (off : Rat)
+    (hh : Str.Digits h) (hm : Str.Digits m) (hs : Str.Digits s) (hf : Str.Digits ff) (hl : ff.length = 2) :
+    timeOf (String.ofList (h ++ ':' :: (m ++ ':' :: (s ++ ';' :: ff)))) frames off
+      = some (clampZero ((((Str.natOfDigits h * 3600 + Str.natOfDigits m * 60 + Str.natOfDigits s : Nat) : Rat)
+          + mkRat (Str.natOfDigits ff + frames) 30) * 1 * 1000000 - off)) :=
+  timeOf_drop h m s ff frames off hh hm hs hf hl
+
+/-- **C06 (one frame per code word).** every word of a line — command, preamble, character word, or a second copy that is
+    skipped — advances the frame count by exactly one and leaves the line's time code and the offset alone -/
+theorem word_counts_one_frame (r : Reader) (w : String) (nxt : Option String) :
+    (word r w nxt).frames = r.frames + 1 ∧ (word r w nxt).tc = r.tc ∧ (word r w nxt).off = r.off :=
+  word_counts r w nxt
+
+/-- after `k` words of a line the frame count is `k` more: whatever comes next is stamped with the line's time code plus
+    one frame per preceding code word -/
+theorem words_count_frames (ws : List String) (r : Reader) (h : ∀ w ∈ ws, IsWord w) :
+    (words r ws).frames = r.frames + ws.length ∧ (words r ws).tc = r.tc ∧ (words r ws).off = r.off :=
+  words_count ws r h
+
+/-- **C06 (a caption starts when its End-Of-Caption code is sent).** the instant the reader records at `942f` is that of
+    the line's time code plus the frames counted so far -/
+theorem eoc_stamps_now (r : Reader) (nxt : Option String) (t : Rat) (h : timeOf r.tc r.frames r.off = some t) :
+    (command r "942f" nxt).time = t :=
+  eoc_time r nxt t h
 
 end PcVerif.Props.C06
